@@ -346,7 +346,7 @@ def native_replay(unit, variant, r, o):
     d = os.path.join(BUILD, unit['name'], variant_tag(variant))
     exe = os.path.join(d, 'replay.bin')
     defs = ['-D%s=%s' % (k, v) for k, v in variant.items()]
-    rc, so, se, _ = sh(['g++', '-std=c++17', '-O1', '-g', '-fsanitize=undefined,address', '-fno-sanitize-recover=undefined', '-I', os.path.join(REPO, 'src'), '-I', os.path.join(ROOT, 'contracts')] + defs +
+    rc, so, se, _ = sh(['g++', '-std=c++17', '-O1', '-g', '-fsanitize=undefined,address', '-fno-sanitize-recover=undefined', '-I', os.path.join(REPO, 'src'), '-I', os.path.join(ROOT, 'contracts'), '-I', os.path.join(ROOT, 'replay')] + defs +
                        [os.path.join(ROOT, rp), '-o', exe], timeout=600)
     if rc != 0:
         return {'reproduced': None, 'output': 'replay build failed: ' + se[-2000:]}
